@@ -51,6 +51,9 @@ class StdModel:
         if m:
             self.used.add('std::initializer_list ({data,size})')
             return self.vec_name(em.ctype(m.group(1)))
+        if re.fullmatch(r'std::hash<(unsigned |signed )?(char|short|int|long|long long)>', t):
+            self.used.add('std::hash<integer> (an uninterpreted function of the value)')
+            return 'xv_empty'
         if t.startswith('std::allocator<') or t.startswith('std::char_traits<') or t.startswith('std::integral_constant<') \
                 or t in ('std::true_type', 'std::false_type') or t.startswith('std::is_') or t.endswith('_tag'):
             return 'xv_empty'
@@ -82,11 +85,19 @@ class StdModel:
         name = callee.get('name')
         if not (own.startswith('std::') or own.startswith('__gnu_cxx::')):
             return None
+        if own == 'std::hash' and name == 'operator()':
+            return 'XV_STDHASH((unsigned long)%s)' % em.rv_or_lv(args[0])
         if own == 'std::vector':
             self.used.add('std::vector::' + name)
             a = [em.rv_or_lv(x) for x in args]
+            vt = self.type(strip_cv(dq(obj['type'])).rstrip('&* '), em) or ''
+            S = vt[len('xv_vec_'):]
+            el = [k for k, v in self.vec_types.items() if v == vt]
+            el = el[0] if el else 'int'
             if name == 'operator[]':
                 return '(&XV_VEC_AT(%s, %s))' % (objp, a[0])
+            if name == 'at':
+                return em.model_call('xv_vec_%s_at' % S, [objp, a[0]], el + '*', maythrow=True)
             if name == 'size':
                 return '((%s)->size)' % objp
             if name == 'back':
@@ -101,6 +112,20 @@ class StdModel:
                 return '((%s)->data)' % objp
             if name == 'empty':
                 return '((%s)->size == 0)' % objp
+            if name == 'resize':
+                return 'xv_vec_%s_resize(%s, %s, %s)' % (S, objp, a[0], a[1] if len(a) > 1 else '0')
+            if name == 'clear':
+                return 'xv_vec_%s_clear(%s)' % (S, objp)
+            if name == 'pop_back':
+                return 'xv_vec_%s_pop_back(%s)' % (S, objp)
+            if name == 'reserve':
+                return '((void)0)'
+            if name in ('max_size', 'capacity'):
+                return '((unsigned long)XV_MAXBLK)'
+            if name == 'get_allocator':
+                return 'xv_empty_value'
+            if name == 'swap':
+                return 'xv_vec_%s_swap(%s, %s)' % (S, objp, em.addr(args[0]))
             raise Unsupported('std::vector::' + name)
         if own in ('std::basic_string', 'std::__cxx11::basic_string'):
             self.used.add('std::string::' + name)
@@ -181,14 +206,27 @@ class StdModel:
             return em.addr(args[0])
         if q == 'std::addressof' or q == 'std::__addressof':
             return em.addr(args[0])
-        if q == 'std::fill_n':
+        if q in ('std::fill_n', 'std::fill'):
             self.used.add(q)
+            ct = em.ctype(dq(args[0]['type']))
+            if not ct.endswith('*'):
+                raise Unsupported(q + ' on non-pointer iterators')
+            S = san(ct[:-1].strip().replace('*', '_p'))
             a = [em.rv_or_lv(x) for x in args[:2]] + [em.addr(args[2])]
-            return 'XV_FILL_N(%s, %s, *%s)' % tuple(a)
-        if q == 'std::fill':
+            if q == 'std::fill_n':
+                return 'xv_fill_n_%s(%s, %s, *%s)' % (S, a[0], a[1], a[2])
+            return 'xv_fill_n_%s(%s, (unsigned long)(%s - %s), *%s)' % (S, a[0], a[1], a[0], a[2])
+        if q == 'std::distance':
             self.used.add(q)
-            a = [em.rv_or_lv(x) for x in args[:2]] + [em.addr(args[2])]
-            return 'XV_FILL(%s, %s, *%s)' % tuple(a)
+            return '(%s - %s)' % (em.rv_or_lv(args[1]), em.rv_or_lv(args[0]))
+        if q == 'std::swap' and len(args) == 2:
+            self.used.add(q)
+            t0 = strip_cv(dq(args[0]['type'])).rstrip('& ')
+            vt = self.type(t0, em) or ''
+            if vt.startswith('xv_vec_'):
+                return 'xv_vec_%s_swap(%s, %s)' % (vt[len('xv_vec_'):], em.addr(args[0]), em.addr(args[1]))
+            ct = em.ctype(t0)
+            return 'XV_SWAP(%s, %s, %s)' % (ct, em.addr(args[0]), em.addr(args[1]))
         if q in ('std::min', 'std::max') and len(args) == 2:
             self.used.add(q)
             a, b = em.addr(args[0]), em.addr(args[1])
@@ -218,6 +256,28 @@ class StdModel:
                 return '((%s)->current = %s)' % (target, em.rv_or_lv(args[0]))
             if len(args) == 1:
                 return '(*%s = %s)' % (target, em.rv_or_lv(args[0]))
+        vt = self.type(t, em) or ''
+        if vt.startswith('xv_vec_') and t.startswith('std::vector'):
+            S = vt[len('xv_vec_'):]
+            real = [x for x in args if not strip_cv(dq(x['type'])).rstrip('& ').startswith('std::allocator')]
+            self.used.add('std::vector constructor (%d args)' % len(real))
+            if len(real) == 0:
+                return 'xv_vec_%s_ctor_n(%s, 0, 0)' % (S, target)    # empty vector: valid zero-length block, begin() == end()
+            at0 = strip_cv(dq(real[0]['type'])).rstrip('& ')
+            if len(real) == 1 and (self.type(at0, em) or '') == vt:
+                if n.get('elidable') or real[0].get('valueCategory') == 'xvalue':
+                    return '(*%s = *%s)' % (target, em.addr(real[0]))
+                src = em.addr(real[0])
+                return 'xv_vec_%s_ctor_range(%s, (%s)->data, (%s)->data + (%s)->size)' % (S, target, src, src, src)
+            if len(real) == 2 and (em.ctype(at0).endswith('*')):
+                return 'xv_vec_%s_ctor_range(%s, %s, %s)' % (S, target, em.rv_or_lv(real[0]), em.rv_or_lv(real[1]))
+            if len(real) == 2:
+                return 'xv_vec_%s_ctor_n(%s, %s, %s)' % (S, target, em.rv_or_lv(real[0]), em.rv_or_lv(real[1]))
+            if len(real) == 1:
+                return 'xv_vec_%s_ctor_n(%s, %s, 0)' % (S, target, em.rv_or_lv(real[0]))
+            raise Unsupported('std::vector constructor ' + n.get('ctorType', {}).get('qualType', ''))
+        if t.startswith('std::allocator<'):
+            return '((void)0)'
         if self.type(t, em) == 'xv_str':
             if len(args) == 0:
                 self.used.add('std::string()')
@@ -232,6 +292,8 @@ class StdModel:
         if t.startswith('std::'):
             if len(args) == 1 and norm_t(dq(args[0]['type'])).rstrip('&') == norm_t(t):
                 return '(*%s = %s)' % (target, em.rv_or_lv(args[0]))
+            if self.type(t, em) == 'xv_empty' and t.startswith('std::hash<'):
+                return '((void)0)'
             if len(args) == 0 and (self.type(t, em) == 'xv_empty' or (self.type(t, em) or '').startswith('xv_arr_')):
                 return '((void)0)'   # trivial default construction: members stay uninitialised, as in C++
             raise Unsupported('std construct ' + tstr)
@@ -255,10 +317,15 @@ class StdModel:
         return None
 
     # ----- C text for on-demand typedefs -----
-    def typedefs_c(self):
+    def typedefs_c(self, late=False):
+        """late=False: typedefs over builtin element types (before the lowered structs); late=True: those over lowered structs"""
+        return '\n'.join(l for l in self._typedefs_c().split('\n') if ('struct S_' in l) == late)
+
+    def _typedefs_c(self):
         out = []
         for el, nm in self.vec_types.items():
             out.append('typedef struct { %s* data; unsigned long size; } %s;' % (el, nm))
+            out.append('XV_VEC_MODEL(%s, %s)' % (el, nm[len('xv_vec_'):]))
         for (el, n), nm in self.arr_types.items():
             out.append('typedef struct { %s a[%s]; } %s;' % (el, n, nm))
         for el, nm in self.rit_types.items():
